@@ -340,7 +340,9 @@ POOL_EXTRA = [
     (("*", ("+", X, "1"), ("+", Y, "1")), None),                             # non-linear
     (("/", "1", ("-", X, X)), None),                                         # unspecified
 ]
-MAP_VALUES = [0, 1, -2, 0.5]
+MAP_VALUES = [0, 1, -2, 0.5, -0.75]
+# mapping values of other numeric types; keys with only integer constants must not truncate them
+VALUE_TYPES = [0.5, 2.5, -0.75, 1e-3, Fraction(1, 3), Fraction(-7, 2), numpy.float64(1.5), numpy.float32(0.25), numpy.int64(3)]
 FORMS = ["comma-spaced", "comma-compact", "list", "mapping"]
 
 
@@ -349,7 +351,7 @@ def drv_forms(c, ctx, col):
     pool = ctx["pool"]
     n = ctx["nmin"] + c.upto(ctx["n"] - ctx["nmin"])
     trees = [c.pick(pool) for _ in range(n)]
-    form = c.pick(FORMS)
+    form = c.pick(ctx.get("forms", FORMS))
     naming = c.pick(ctx["namings"])
     style = c.pick(ctx["styles"])
     toks_map, names, ms = resolve_naming(naming)
@@ -511,11 +513,11 @@ def subchecks(tier, seed):
                                                "right_subtree_leaves": [l if isinstance(l, str) else l[1].lower() for l in lr],
                                                "note": "VERIF_SEED-selected exhaustive slice of the thorough scope"}))
         subs.append(Sub("forms", drv_forms, {"pool": pool2, "n": 2, "nmin": 1, "namings": ["zyx", "spec-categorical"],
-                                              "styles": ["min"], "values": [1, -2]},
-                        shard_depth=2, bounds={"constraints": "1..2", "pool": len(pool2), "forms": FORMS, "mapping_values": [1, -2]}))
+                                              "styles": ["min"], "values": [-2, 2.5]},
+                        shard_depth=2, bounds={"constraints": "1..2", "pool": len(pool2), "forms": FORMS, "mapping_values": [-2, 2.5]}))
         subs.append(Sub("forms-3", drv_forms, {"pool": pool3, "n": 3, "nmin": 3, "namings": ["xyz", "spec-numeric"], "styles": ["min"],
-                                                "values": [-2]},
-                        shard_depth=3, bounds={"constraints": 3, "pool": len(pool3), "forms": FORMS, "mapping_values": [-2]}))
+                                                "values": [-0.75]},
+                        shard_depth=3, bounds={"constraints": 3, "pool": len(pool3), "forms": FORMS, "mapping_values": [-0.75]}))
         subs.append(Sub("namings", drv_expr, {"eq": True, "k": 1, "kmin": 0, "leaves": [X, Y, Z, "2"], "variants": VARIANTS_ALL, "neg": False},
                         shard_depth=3, bounds={"max_binary_operators_both_sides": 1, "leaves": "x y z 2", "variants": "all 42 (3 styles x 2 spacings x 7 namings)"}))
         subs.append(Sub("unary", drv_unary, {"k": 1, "leaves": LEAVES3, "namings": ["xyz"]}, shard_depth=3,
@@ -523,6 +525,10 @@ def subchecks(tier, seed):
         subs.append(Sub("unary-2", drv_unary, {"k": 2, "kmin": 2, "leaves": LEAVES3, "namings": ["xyz"], "shapes": ["E", "2 = E"],
                                                 "signs": ["neg"], "spacing": False}, shard_depth=4,
                         bounds={"binary_operators": 2, "leaves": three, "one unary minus": "every node, parenthesised and bare, shapes E and 2 = E"}))
+        subs.append(Sub("mapping-values", drv_forms, {"pool": pool2, "n": 1, "nmin": 1, "forms": ["mapping"], "styles": ["min"],
+                                                       "namings": ["xyz", "ticked", "spec-numeric"], "values": VALUE_TYPES},
+                        shard_depth=2, bounds={"constraints": 1, "pool": len(pool2), "forms": ["mapping"],
+                                               "mapping_values": [repr(v) for v in VALUE_TYPES], "namings": ["xyz", "ticked", "spec-numeric"]}))
         subs.append(Sub("literals", drv_literals, {"literals": LITERALS[:8]}, shard_depth=2, bounds={"literals": LITERALS[:8]}))
     else:
         subs.append(Sub("expr", drv_expr, {"eq": False, "k": 3, "kmin": 0, "leaves": LEAVES6,
@@ -542,11 +548,15 @@ def subchecks(tier, seed):
                         shard_depth=2, bounds={"constraints": "1..2", "pool": len(pool2), "forms": FORMS, "mapping_values": MAP_VALUES,
                                                "namings": list(NAMINGS)}))
         subs.append(Sub("forms-3", drv_forms, {"pool": pool3, "n": 3, "nmin": 3, "namings": ["xyz", "zyx", "ticked", "spec-numeric"],
-                                                "styles": ["min"], "values": [0, 1, -2]},
-                        shard_depth=3, bounds={"constraints": 3, "pool": len(pool3), "forms": FORMS, "mapping_values": [0, 1, -2]}))
+                                                "styles": ["min"], "values": [0, 1, -0.75]},
+                        shard_depth=3, bounds={"constraints": 3, "pool": len(pool3), "forms": FORMS, "mapping_values": [0, 1, -0.75]}))
         subs.append(Sub("namings", drv_expr, {"eq": True, "k": 1, "kmin": 0, "leaves": [X, Y, Z, "2", "0.5"], "variants": VARIANTS_ALL},
                         shard_depth=3, bounds={"max_binary_operators_both_sides": 1, "leaves": "x y z 2 0.5", "variants": "all 42 x head minus"}))
         subs.append(Sub("unary", drv_unary, {"k": 2, "leaves": LEAVES3, "namings": ["xyz", "ticked"]}, shard_depth=4,
                         bounds={"max_binary_operators": 2, "leaves": three, "one unary sign": "every node, - and +, parenthesised and bare, 4 shapes"}))
+        subs.append(Sub("mapping-values", drv_forms, {"pool": pool3, "n": 2, "nmin": 1, "forms": ["mapping"], "styles": ["min"],
+                                                       "namings": ["xyz", "ticked", "spec-numeric"], "values": VALUE_TYPES},
+                        shard_depth=2, bounds={"constraints": "1..2", "pool": len(pool3), "forms": ["mapping"],
+                                               "mapping_values": [repr(v) for v in VALUE_TYPES], "namings": ["xyz", "ticked", "spec-numeric"]}))
         subs.append(Sub("literals", drv_literals, {"literals": LITERALS}, shard_depth=2, bounds={"literals": LITERALS}))
     return subs
